@@ -144,7 +144,7 @@ Plan generate(Rng &rng, const Opts &opts, uint64_t)
         ++sid;
         if (ms.empty() || r < 22) {
             if (rng.chance(1, 6)) {
-                p.steps.push_back(mk(t, "BUILD", {sid, long(rng.below(1000)), long(rng.below(2) == 0 ? 1 + rng.below(2) : 0)}));
+                p.steps.push_back(mk(t, "BUILD", {sid, long(rng.below(1000)), long(rng.below(2) == 0 ? 1 + rng.below(3) : 0)}));
                 docOf[sid] = -1;
             } else {
                 long d = docs[rng.below(docs.size())];
@@ -424,6 +424,21 @@ void execute(const Plan &plan, Ctx &ctx)
                 }
                 a->setMath(math + "</math>");
                 ctx.count("purity_build_external_order_model");
+            } else if (s.arg(2) == 3) {
+                // the same small model in two variants that differ only in what the units named "u" are:
+                // whatever a service remembers under a name must not carry over from one model to the next
+                bool metres = (s.arg(1) % 2) != 0;
+                model = Model::create("units_named_u");
+                auto u = Units::create("u");
+                u->addUnit(metres ? "metre" : "second");
+                model->addUnits(u);
+                auto c = Component::create("c");
+                model->addComponent(c);
+                auto x = Variable::create("x");
+                x->setUnits(u);
+                c->addVariable(x);
+                c->setMath("<math xmlns=\"http://www.w3.org/1998/Math/MathML\" xmlns:cellml=\"http://www.cellml.org/cellml/2.0#\"><apply><eq/><ci>x</ci><cn cellml:units=\"u\">3</cn></apply></math>");
+                ctx.count("purity_build_same_units_name_model");
             } else {
                 model = genModel(mr, go);
             }
